@@ -174,6 +174,10 @@ class HdrGen:
         m = method or (('HEAD' if rng.random() < self.head_bias else None) or rng.choice(METHODS))
         auth = rng.choice(AUTHS)
         pseudo = [(':method', m), (':scheme', rng.choice(['https', 'http'])), (':path', rng.choice(PATHS))]
+        if method is None and self.variety and rng.random() < self.variety * 0.04:
+            # extended CONNECT (RFC 8441): the one request that carries :protocol, in any pseudo-header order
+            m = 'CONNECT'
+            pseudo = [(':method', m), (':scheme', 'https'), (':path', '/chat'), (':protocol', rng.choice(['websocket', 'connect-udp']))]
         hostmode = rng.choice(['authority', 'authority', 'host', 'both'])
         if self.variety and rng.random() < self.variety * 0.04:
             auth = ''           # present but empty (legal: RFC 7540 only asks for presence and agreement)
@@ -326,7 +330,7 @@ class Gen:
         # per-run op weights (swarm: some kinds disabled altogether)
         ops = {'open': 3, 'respond': 3, 'info': 1, 'data': 5, 'end': 2, 'trailers': 1, 'reset': 1,
                'ping': 1, 'ack': 4, 'settings': 0, 'push': 0, 'prio': 1, 'winc': 1, 'altsvc': 1,
-               'gc': 1, 'query': 2, 'goaway': 0, 'race': 0, 'rsv': 0}
+               'gc': 1, 'query': 2, 'goaway': 0, 'race': 0, 'rsv': 0, 'boundary': 0}
         for k in list(ops):
             if rng.random() < 0.2 and k not in ('open', 'respond'):
                 ops[k] = 0
@@ -337,6 +341,8 @@ class Gen:
             ops['rsv'] = P['push'] * 25 * P.get('rsv', 0.5)
         if rng.random() < 0.5:
             ops['goaway'] = P['goaway'] * 10
+        if rng.random() < P.get('boundary', 0.0):
+            ops['boundary'] = 0.6
         self.no_winc = bool(P.get('no_manual_winc'))
         if self.no_winc:
             ops['winc'] = 0
@@ -982,6 +988,47 @@ class Gen:
             if rng.random() < 0.5:
                 self.settle()
 
+    def _op_boundary(self, ep, e, trk, live):
+        """Header blocks whose encoded size lands exactly on and around a multiple of the peer's MAX_FRAME_SIZE, sent
+        with priority fields (client) - the first frame then holds 5 bytes less than the others.  The size is found the
+        way an application could find it: send two blocks, look at what went out, adjust."""
+        rng = self.rng
+        if not e.client or trk.closed or self.halted:
+            return
+        mf = self._max_frame(trk)
+        lim = trk.peer.get(C.S_MAX_HEADER_LIST_SIZE)
+        k = rng.choice([1, 1, 2])
+        if lim is not None and k * mf + 400 > lim:
+            k = 1
+            if mf + 400 > lim:
+                return
+        base = [(b':method', b'GET'), (b':scheme', b'https'), (b':authority', b'b.example'), (b':path', b'/b')]
+        prio = {'pw': 200, 'pd': 0, 'pe': False}
+
+        def send(L):
+            sid = max(trk.hi_mine + 2, 1) if trk.hi_mine else 1
+            mx = trk.peer.get(C.S_MAX_CONCURRENT_STREAMS)
+            if sid > MAXID or (mx is not None and trk.count_open(True) >= mx):
+                return None
+            # '&' has an 8-bit Huffman code: one byte per character whatever the encoder chooses
+            s_ = self.call(ep, 'send_headers', sid=sid, headers=base + [(b'x-big', b'&' * L)], es=True, **prio)
+            if s_ is None or not s_.ok:
+                return None
+            return sum((f.length - (5 if f.type == C.HEADERS else 0)) for f in s_.out_frames if f.type in (C.HEADERS, C.CONTINUATION))
+        L0 = k * mf - 300
+        if send(L0) is None or self.halted:
+            return
+        b2 = send(L0)
+        if b2 is None or self.halted:
+            return
+        target = k * mf
+        for j in rng.sample(range(-7, 4), rng.choice([3, 5, 8])):
+            if self.halted:
+                return
+            L = L0 + (target - b2) + j
+            if L > 0:
+                send(L)
+
     def _op_prio(self, ep, e, trk, live):
         rng = self.rng
         if not e.client:
@@ -1235,7 +1282,8 @@ class Gen:
             if s_ is not None and not s_.ok and not e.client and promised == trk.hi_mine + 2 and promised <= MAXID:
                 self._poke_leftover(ep, promised)
         elif k == 5:
-            data = rng.choice([b'', b'1234567', b'123456789', '12345678', b'\x00' * 8])
+            data = rng.choice([b'', b'1234567', b'123456789', '12345678', b'\x00' * 8, 8, [1, 2, 3, 4, 5, 6, 7, 8], None,
+                               bytearray(8)])
             self.call(ep, 'ping', data=data)
         elif k == 6:
             if not fsm_ok and not e.client:
@@ -1292,7 +1340,11 @@ class Gen:
             if st is None or st.state not in ('open', 'hcR') or st.sent != FINAL:
                 return
             # (refused after the state machine has been asked, and rolled back since fix 5deac66: a plain refusal)
-            self.call(ep, 'send_headers', sid=sid, headers=hg.trailers(mf), es=False)
+            if not e.client and rng.random() < 0.4:
+                # an informational response after the final one (with END_STREAM it looks like trailers to a careless check)
+                self.call(ep, 'send_headers', sid=sid, headers=hg.response(info=True, max_frame=mf), es=rng.random() < 0.7)
+            else:
+                self.call(ep, 'send_headers', sid=sid, headers=hg.trailers(mf), es=False)
         elif k == 13:
             # valid-looking headers on a valid stream but an invalid list
             if e.client:
@@ -1379,7 +1431,9 @@ class Gen:
         if op == 'send_headers' and isinstance(sid, int) and 0 < sid <= MAXID:
             if k == 0:
                 # the proper retry
-                if st is None and e.client:
+                if st is not None and st.state in ('open', 'hcR') and st.sent == FINAL and not self.cl_left.get((ep, sid)):
+                    self.call(ep, 'send_headers', sid=sid, headers=[('x-trailer', 'retry')], es=True)
+                elif st is None and e.client:
                     self._op_open(ep, e, trk, live)
                 elif st is not None and not st.mine and st.state in ('open', 'hcR') and st.sent in (NONE, INFO) \
                         and not self._no_body(trk, st):
